@@ -50,13 +50,14 @@ type scenario struct {
 }
 
 type answer struct {
-	name   string
-	status int
-	ra     string // Retry-After header: "", "2", "5", "date+3", "date-10", "junk"
-	body   string // "ok", "badjson", "text"
-	neterr bool
-	redir  bool
-	viaGET bool // answer to the GET that a redirect turned the POST into: never a success
+	name    string
+	status  int
+	ra      string // Retry-After header: "", "2", "5", "date+3", "date-10", "junk"
+	body    string // "ok", "badjson", "text"
+	neterr  bool
+	redir   bool
+	timeout bool
+	viaGET  bool // answer to the GET that a redirect turned the POST into: never a success
 }
 
 var menu = []answer{
@@ -67,6 +68,7 @@ var menu = []answer{
 	{name: "429ra2", status: 429, ra: "2", body: "text"},
 	{name: "503", status: 503, body: "text"},
 	{name: "503ra5", status: 503, ra: "5", body: "text"},
+	{name: "429ra300", status: 429, ra: "300", body: "text"}, // more than the 128 s cap: must not stick to later answers
 	{name: "503date+3", status: 503, ra: "date+3", body: "text"},
 	{name: "503date-10", status: 503, ra: "date-10", body: "text"},
 	{name: "503junk", status: 503, ra: "junk", body: "text"},
@@ -75,6 +77,7 @@ var menu = []answer{
 	{name: "500", status: 500, body: "text"},
 	{name: "301", status: 301, redir: true, body: "text"},
 	{name: "neterr", neterr: true},
+	{name: "nettimeout", neterr: true, timeout: true}, // a transport-level timeout (errors.Is(err, context.DeadlineExceeded)) while the caller's context is live
 }
 
 type event struct {
@@ -161,6 +164,9 @@ func (g *gatedRT) RoundTrip(req *http.Request) (*http.Response, error) {
 	case "5":
 		h.Set("Retry-After", "5")
 		ev.askAt = gate.Now() + 5*time.Second
+	case "300":
+		h.Set("Retry-After", "300")
+		ev.askAt = gate.Now() + 300*time.Second
 	case "date+3":
 		d := now.Add(3 * time.Second).UTC()
 		h.Set("Retry-After", d.Format(time.RFC1123))
@@ -171,6 +177,9 @@ func (g *gatedRT) RoundTrip(req *http.Request) (*http.Response, error) {
 		h.Set("Retry-After", "soon")
 	}
 	g.rec.add(ev)
+	if a.timeout {
+		return nil, transportTimeout{}
+	}
 	if a.neterr {
 		return nil, errors.New("connection reset by peer")
 	}
@@ -191,6 +200,15 @@ func (g *gatedRT) RoundTrip(req *http.Request) (*http.Response, error) {
 	return &http.Response{StatusCode: a.status, Status: fmt.Sprintf("%d %s", a.status, http.StatusText(a.status)), Header: h,
 		Body: io.NopCloser(strings.NewReader(b)), Request: req, Proto: "HTTP/1.1", ProtoMajor: 1, ProtoMinor: 1}, nil
 }
+
+// transportTimeout mimics net/http's per-attempt timeout errors: a net.Error with
+// Timeout() == true that also matches context.DeadlineExceeded under errors.Is.
+type transportTimeout struct{}
+
+func (transportTimeout) Error() string        { return "net/http: timeout awaiting response headers" }
+func (transportTimeout) Timeout() bool        { return true }
+func (transportTimeout) Temporary() bool      { return true }
+func (transportTimeout) Is(target error) bool { return target == context.DeadlineExceeded }
 
 type nolog struct{}
 
